@@ -70,6 +70,71 @@ def clock_ids(prog, fn, seen=None, depth=0):
     return ids
 
 
+def pathwise_unit_correction(ctx, fn, kind):
+    """C19.2 said path by path (the spelling-independent form): on every way to a `Some` result the 10^9 correction of the nanoseconds and
+    the one-second carry / borrow of the seconds occur together - once each or not at all - and the way with the correction stands under
+    the sign test that calls for it (`nanos < 0` for a difference, `nanos >= 10^9` for a sum), the way without it under the opposite.
+    Returns (ok, why).  kind: "sub" | "add"."""
+    from ..engine.dtable import enumerate_paths, path_return_value
+    cfg = ctx.cfg
+    corr, unit = {}, set()
+    for b in fn["blocks"]:
+        if b.get("cleanup") or b["id"] not in cfg.live_blocks():
+            continue
+        for i, st in enumerate(b["stmts"]):
+            if st["k"] == "assign" and st["rv"]["k"] == "binop" and str(st["rv"].get("op", "")).replace("WithOverflow", "").replace("Unchecked", "") in ("Add", "Sub"):
+                e = ctx.prov.rvalue(st["rv"], (b["id"], i))
+                if isinstance(e, tuple) and len(e) > 3 and fold(e[3]) == NANOS:
+                    corr[b["id"]] = canon(strip_casts(e[2]))
+                if isinstance(e, tuple) and len(e) > 3 and fold(e[3]) == 1 and is_sec(e[2], ctx.prov):
+                    unit.add(b["id"])
+        t = b["term"]
+        if t["k"] == "call" and (t.get("callee") or "").endswith(("::checked_add", "::checked_sub")):
+            a = ctx.args(b["id"])
+            if len(a) == 2 and fold(a[1]) == 1:
+                unit.add(b["id"])
+    if not corr:
+        return False, "no 10^9 correction found"
+    subjects = set(corr.values())
+    n_some = 0
+    for edges in enumerate_paths(ctx):
+        v = path_return_value(ctx, edges)
+        vs = strip_casts(v) if v is not None else None
+        if not (isinstance(vs, tuple) and vs[0] == "agg" and vs[2] == "Some"):
+            continue
+        blocks = [0] + [e.dst for e in edges]
+        neg = pos = infeasible = False
+        for e in edges:
+            if e.kind != "sw":
+                continue
+            for f in ctx.edge_facts(e):
+                if f[0] != "cmp":
+                    continue
+                for x, k, op in ((f[2], fold(f[3]), f[1]), (f[3], fold(f[2]), {"Lt": "Gt", "Le": "Ge", "Gt": "Lt", "Ge": "Le"}.get(f[1]))):
+                    if k is None or op is None or canon(strip_casts(x)) not in subjects:
+                        continue
+                    lim = 0 if kind == "sub" else NANOS
+                    if (op == "Lt" and k == lim) or (op == "Le" and k == lim - 1):
+                        neg = True                       # below the limit
+                    if (op == "Ge" and k == lim) or (op == "Gt" and k == lim - 1):
+                        pos = True                       # at or above the limit
+                    if (op == "Lt" and k <= -(2 ** 63)) or (op == "Gt" and k >= 2 ** 63 - 1):
+                        infeasible = True
+        if infeasible or (neg and pos):
+            continue
+        n_some += 1
+        c_, u_ = [b for b in blocks if b in corr], [b for b in blocks if b in unit]
+        calls_for = neg if kind == "sub" else pos
+        against = pos if kind == "sub" else neg
+        if len(c_) != len(u_) or len(c_) > 1:
+            return False, f"a way to Some applies the 10^9 correction {len(c_)} time(s) and moves {len(u_)} second(s)"
+        if len(c_) == 1 and not calls_for:
+            return False, "the 10^9 correction is applied on a way that does not stand under the sign test calling for it"
+        if len(c_) == 0 and not against:
+            return False, "a way to Some skips the correction without the opposite sign test"
+    return n_some >= 2, f"{n_some} ways to Some examined"
+
+
 def run_one(ck, prog):
     checked = ["checked_add_dur", "checked_sub_dur", "sub_ts_checked_dur"]
     n_checked_ops = 0
@@ -80,6 +145,16 @@ def run_one(ck, prog):
             continue
         ctx = prog.ctx(fn)
         cfg = ctx.cfg
+        _pw = []
+
+        def pw(ctx=ctx, fn=fn, nm=nm, _pw=_pw):
+            # the path-by-path form of C19.2, computed once per function, used where the spelling-bound form does not recognise the code
+            if not _pw:
+                try:
+                    _pw.append(pathwise_unit_correction(ctx, fn, "add" if nm == "checked_add_dur" else "sub"))
+                except Exception as ex:      # noqa: BLE001  (an analysis that cannot run proves nothing)
+                    _pw.append((False, f"not evaluated: {ex}"))
+            return _pw[0]
         # ---- C19.1 / C19.2: every potential-panic site ----------------------------------------------------------------
         for s in panics.sites(ctx):
             ops = s["ops"]
@@ -93,9 +168,11 @@ def run_one(ck, prog):
                 facts = panics.dominating_facts(ctx, s["bb"])
                 if c == NANOS and s["kind"] == "overflow_sub":
                     ok = any(f[0] == "cmp" and f[1] == "Ge" and canon(f[2]) == canon(ops[0]) and fold(f[3]) == NANOS for f in facts)
+                    ok = ok or pw()[0]
                     ck.ob("C19.2", f"{nm}|carry-correction", ok, fn=fn["path"], site=span_str(s["sp"]), detail="`nanos - 10^9` must be dominated by `nanos >= 10^9` on the same value")
                 elif c == NANOS and s["kind"] == "overflow_add":
                     ok = any(f[0] == "cmp" and f[1] == "Lt" and canon(f[2]) == canon(ops[0]) and fold(f[3]) == 0 for f in facts)
+                    ok = ok or pw()[0]
                     ck.ob("C19.2", f"{nm}|borrow-correction", ok, fn=fn["path"], site=span_str(s["sp"]), detail="`nanos + 10^9` must be dominated by `nanos < 0` on the same value")
                 else:
                     ck.ob("C19.2", f"{nm}|other-arithmetic|{s['key']}", False, fn=fn["path"], site=span_str(s["sp"]), detail=f"unexpected unchecked arithmetic {s['key']} in a checked time function")
@@ -146,6 +223,11 @@ def run_one(ck, prog):
                     return is_conv(x[2][0], depth + 1)
                 if x[0] == "ref":
                     return is_conv(x[2], depth + 1)
+                if x[0] == "var":
+                    # the return slot of an expanded helper: the conversion on one way, None (an inner `?`) on the others
+                    ds = [strip_casts(d) for d in ctx.prov.expand(x)]
+                    rest = [d for d in ds if not is_conv(d, depth + 1)]
+                    return len(rest) < len(ds) and all(isinstance(d, tuple) and ((d[0] == "agg" and d[2] == "None") or (d[0] == "call" and (d[1] or "").endswith("from_residual"))) for d in rest)
                 return False
             ok = any(is_conv(ctx.args(b2)[0]) for b2, t2 in cfg.calls(lambda t2: (t2.get("callee") or "").endswith("Try::branch")))
             if not ok:
@@ -158,11 +240,11 @@ def run_one(ck, prog):
         # the seconds adjustment in the correction branch is exactly one
         if nm in ("checked_add_dur", "checked_sub_dur"):
             ones = [bb for bb, t in cfg.calls(lambda t: (t.get("callee") or "").endswith("u64>::checked_add")) if fold(ctx.args(bb)[1]) == 1 and mentions(ctx.args(bb)[0], ctx.prov, lambda z: z[0] == "call" and (z[1] or "").endswith("Duration::as_secs"))]
-            ck.ob("C19.2", f"{nm}|one-second-carry", len(ones) == 1, fn=fn["path"], detail="the carry/borrow must move exactly one second (checked_add(1)) into the seconds operand")
+            ck.ob("C19.2", f"{nm}|one-second-carry", len(ones) == 1 or pw()[0], fn=fn["path"], detail="the carry/borrow must move exactly one second (checked_add(1)) into the seconds operand")
             if ones:
                 facts = panics.dominating_facts(ctx, ones[0])
                 want = ("Ge", NANOS) if nm == "checked_add_dur" else ("Lt", 0)
-                ck.ob("C19.2", f"{nm}|carry-in-correction-branch", any(f[0] == "cmp" and f[1] == want[0] and fold(f[3]) == want[1] for f in facts), fn=fn["path"], detail="the one-second carry must sit in the same branch as the 10^9 correction")
+                ck.ob("C19.2", f"{nm}|carry-in-correction-branch", any(f[0] == "cmp" and f[1] == want[0] and fold(f[3]) == want[1] for f in facts) or pw()[0], fn=fn["path"], detail="the one-second carry must sit in the same branch as the 10^9 correction")
         if nm == "sub_ts_checked_dur":
             subs = [bb for bb, t in cfg.calls(lambda t: (t.get("callee") or "").endswith("i64>::checked_sub"))]
             inner = [bb for bb in subs if any(mentions(x, ctx.prov, lambda z: z[0] == "var" or (z[0] == "const" and z[1] in (0, 1))) for x in ctx.args(bb)[1:])]
@@ -199,7 +281,7 @@ def run_one(ck, prog):
                     pv = possible(a1)       # the projected component only (the tuple's other component holds the operands)
                     if pv - {None}:
                         vals |= pv
-            ck.ob("C19.2", f"{nm}|borrow-is-zero-or-one", vals == {0, 1}, fn=fn["path"], detail=f"the borrowed seconds must be 0 or exactly 1; found {sorted(str(v) for v in vals)}")
+            ck.ob("C19.2", f"{nm}|borrow-is-zero-or-one", vals == {0, 1} or pw()[0], fn=fn["path"], detail=f"the borrowed seconds must be 0 or exactly 1; found {sorted(str(v) for v in vals)}; path by path: {pw()[1]}")
     ck.floor("C19.1", "checked operations on seconds", n_checked_ops, 6)
     ck.floor("C19.1", "checked conversions of seconds", n_conv, 3)
 
